@@ -102,9 +102,10 @@ def build(chk):
                 kinds = [z3.BitVecVal([2, 1, 3][P.choose(3)], 32), z3.BitVecVal(1, 32)]
                 eqs = [z3.BitVecVal(1, 32), z3.BitVecVal(2, 32)]
             # bounds
-            bshape = ['none', 'finite', 'nan-lower', 'inf-lower', 'ninf-upper', 'free'][P.choose(6)] if focus == 'bounds' else ['none', 'finite'][P.choose(2)]
+            bshape = ['none', 'finite', 'nan-lower', 'nan-upper', 'inf-lower', 'ninf-upper', 'free', 'inf-inf', 'ninf-ninf', 'lower-only', 'upper-only'][P.choose(11)] if focus == 'bounds' else ['none', 'finite'][P.choose(2)]
             lo, hi = P.real('lo'), P.real('hi')
-            bound0 = {'none': None, 'finite': (lo, hi), 'nan-lower': (NAN, hi), 'inf-lower': (PINF, hi), 'ninf-upper': (lo, NINF), 'free': (NINF, PINF)}[bshape]
+            bound0 = {'none': None, 'finite': (lo, hi), 'nan-lower': (NAN, hi), 'nan-upper': (lo, NAN), 'inf-lower': (PINF, hi), 'ninf-upper': (lo, NINF), 'free': (NINF, PINF),
+                      'inf-inf': (PINF, PINF), 'ninf-ninf': (NINF, NINF), 'lower-only': (lo, PINF), 'upper-only': (NINF, hi)}[bshape]
             vids = [1, 2]
             if focus == 'ids':
                 vids = [1, [1, 2][P.choose(2)]]
